@@ -1,7 +1,7 @@
 (* C20 — channel log and scrapli log file record the session faithfully.
    This file contains only the property theorems (closed by [exact]) and Print Assumptions,
    plus the by-computation obligations over the definitions regenerated from the source tree. *)
-From Verif Require Import Bytes LogFormat LogHandler ChanLog LogFormat_Proofs LogHandler_Proofs LogRepr_Proofs ChanLog_Proofs.
+From Verif Require Import Bytes LogFormat LogHandler ChanLog Commandeer LogFormat_Proofs LogHandler_Proofs LogRepr_Proofs ChanLog_Proofs Commandeer_Proofs.
 From Gen Require Import Gen_Log.
 
 (* ---- channel log ---- *)
@@ -65,6 +65,35 @@ Theorem C20_late_open_refuted :
     <> Some (remove_byte CR (concat (pre ++ post))).
 Proof. exact late_open_refuted. Qed.
 Print Assumptions C20_late_open_refuted.
+
+(* ---- a commandeered connection: Driver.commandeer / AsyncDriver.commandeer ---- *)
+(* A opened the connection with a channel log on destination d and read [pre] through it; B commandeers it (B takes
+   A's open log, B's own configured channel_log is not opened) and [post] is read through A and B in any
+   interleaving: d holds what it held after A's open followed by EVERY byte read on the connection, CRs removed, in
+   order, once, and every other destination (B's own included) is untouched. *)
+Theorem C20_commandeer_exact :
+  forall (d : nat) (s : store) (pre : list bytes) (post : list (who * bytes)),
+    cont (cmd_run (after_open (Some d) s) (cmd_session CTakeover pre post)) d
+      = s d ++ remove_byte CR (concat (pre ++ map snd post)) /\
+    (forall x, x <> d -> cont (cmd_run (after_open (Some d) s) (cmd_session CTakeover pre post)) x = s x).
+Proof. exact commandeer_exact. Qed.
+Print Assumptions C20_commandeer_exact.
+
+(* A has no channel log: commandeering gives B none, no destination is written (B's configured one stays as it was) *)
+Theorem C20_commandeer_without_log :
+  forall (s : store) (pre : list bytes) (post : list (who * bytes)),
+    cmd_run (after_open None s) (cmd_session CTakeover pre post) = after_open None s.
+Proof. exact commandeer_without_log. Qed.
+Print Assumptions C20_commandeer_without_log.
+
+(* the commandeering object opening its own configured destination (the same file, write mode) instead of taking
+   over the open log falsifies the statement: what was read before the commandeering is lost *)
+Theorem C20_reopen_same_destination_refuted :
+  exists d s pre post,
+    cont (cmd_run (after_open (Some d) s) (cmd_session (CReopen d false) pre post)) d
+      <> s d ++ remove_byte CR (concat (pre ++ map snd post)).
+Proof. exact reopen_same_destination_refuted. Qed.
+Print Assumptions C20_reopen_same_destination_refuted.
 
 (* ---- log file, buffering handler (ScrapliFileHandler), as the code is now ---- *)
 (* For EVERY formatter configuration, previous file content, mode and EVERY sequence of records (eager or
